@@ -72,6 +72,35 @@ def serde_agreement(R, rule, roots, floor, optional=(), transient=()):
                 if ends and g.reach((0,), avoid={c["bb"]}) & ends:
                     ok = False
                     R.viol(rule, "serde-conditional:%s.%s" % (a.split("::")[-1], w), "%s.%s is not written on every save (skip_serializing_if)" % (a, w), sb, sb.lines[0])
+    # hand-written `serialize_with` functions for Option fields: absent is written only for None — a `Some(x)` that is written as
+    # `none` for some x (say an empty list) loads back as None, and save/load is no longer the identity
+    from flow import callee_matches, op_local, Taint
+    from rules import FieldOptGuard, Tracker
+    custom = {}
+    for b in F.bodies.values():
+        if "__SerializeWith" in b.path and b.path.endswith("::serialize") and any(a in b.path for a in tc):
+            for c in b.calls_raw:
+                for hb in F.by_npath.get(c["ncallee"] or "", []):
+                    if hb.crate == b.crate and hb.kind in ("fn", "assoc_fn"):
+                        custom[hb.path] = hb
+    ncustom = 0
+    for hb in custom.values():
+        prep(hb)
+        if not str(hb.locals.get("1", "")).replace(" ", "").startswith(("&core::option::Option<", "&std::option::Option<", "&Option<")):
+            continue
+        nones = [blk["id"] for blk in hb.blocks if blk["term"]["k"] == "call" and not blk["cleanup"] and (blk["term"].get("ngen") or blk["term"].get("ncallee") or "").endswith("Serializer::serialize_none")]
+        if not nones:
+            continue
+        ncustom += 1
+        tr = Tracker(hb)
+        for l in Taint(hb).closure({1}):
+            tr.seed_call_result(l, ("None",), False)
+        tr.run()
+        g = cfg_of(hb)
+        if not tr.accept or (set(nones) & g.reach((0,), cut=tr.accept)):
+            ok = False
+            R.viol(rule, "serde-with-none:%s" % hb.npath.split("::")[-1], "%s writes `none` for a value that is not None: it loads back as None (save/load is not the identity)" % hb.npath, hb, hb.lines[0])
+    rows["custom_option_serialisers"] = ncustom
     if n < floor:
         ok = False
         R.viol(rule, "instance-floor", "only %d derive-generated serde pairs found under %s (floor %d)" % (n, ", ".join(roots), floor))
